@@ -397,7 +397,17 @@ class GeoInterp:
         if not kw and not any(isinstance(a, ast.Starred) for a in e.args):
             fv = ev(e.func)
             if fv[0] in ('F', 'K'):
-                return ('C', fv[1], tuple(ev(a) for a in e.args))
+                argv = tuple(ev(a) for a in e.args)
+                fn = module.functions.get(fv[1]) if fv[0] == 'F' and \
+                    fv[1] not in getattr(self, 'opaque', ()) else None
+                if fn is not None and depth > 0:
+                    # a function taken from a table: apply it when its body is in the grammar
+                    names = [a.arg for a in fn.node.args.posonlyargs + fn.node.args.args]
+                    try:
+                        return self._call(fn, dict(zip(names, argv)), depth - 1)
+                    except AnalysisError:
+                        pass
+                return ('C', fv[1], argv)
         raise AnalysisError(f'geometry expression outside the grammar: `{src(e)}`')
 
     def lookup(self, table, key, depth: int):
